@@ -1,6 +1,10 @@
+pub mod c01;
+pub mod c01_scaling;
+pub mod c02;
 pub mod c03;
 pub mod c13;
 pub mod c17;
+pub mod docsweep;
 
 use serde_json::Value;
 
@@ -8,7 +12,9 @@ use crate::core::Run;
 
 pub fn dispatch_run(id: &str, run: &mut Run) -> bool {
     match id {
-        "C03" => c03::run_edit_primitive(run),
+        "C01" => c01::run(run),
+        "C02" => c02::run(run),
+        "C03" => c03::run(run),
         "C13" => c13::run(run),
         "C17" => c17::run(run),
         _ => return false,
@@ -18,13 +24,58 @@ pub fn dispatch_run(id: &str, run: &mut Run) -> bool {
 
 pub fn dispatch_replay(id: &str, check: &str, case: Value, run: &mut Run) -> Result<(), String> {
     match id {
-        "C03" => c03::replay_edit(case),
+        "C01" => c01::replay(check, case, run),
+        "C02" => c02::replay(check, case, run),
+        "C03" => c03::replay(check, case, run),
         "C13" => c13::replay(check, case, run),
         "C17" => c17::replay(check, case, run),
         _ => Err(format!("unknown property {id}")),
     }
 }
 
-pub fn worker_main(_args: &[String]) -> i32 {
+/// Exploration aid (not a registered command): run N generated documents through the oracle of
+/// C01/C02/C03 without stopping at the first failure; print failures grouped by signature with
+/// the smallest witness of each group.
+pub fn survey(id: &str, n: usize, seed: u64) -> i32 {
+    use proptest::strategy::{Strategy, ValueTree};
+    use proptest::test_runner::{Config, RngSeed, TestRunner};
+    use std::collections::BTreeMap;
+    use std::sync::Mutex;
+    let groups: Mutex<BTreeMap<String, (usize, docsweep::DocCase, String)>> = Mutex::new(BTreeMap::new());
+    std::thread::scope(|sc| {
+        for shard in 0..16u64 {
+            let groups = &groups;
+            std::thread::Builder::new().stack_size(8 << 20).spawn_scoped(sc, move || {
+                let strat = docsweep::doc_case_strategy();
+                let mut r = TestRunner::new(Config { rng_seed: RngSeed::Fixed(crate::core::mix(seed, shard)), ..Config::default() });
+                for _ in 0..n / 16 {
+                    let c = strat.new_tree(&mut r).unwrap().current();
+                    let mut ctx = crate::core::CaseCtx::default();
+                    let res = crate::core::catch(|| match id {
+                        "C01" => c01::test_case(&c, &mut ctx),
+                        "C02" => c02::test_case(&c, &mut ctx),
+                        _ => c03::test_doc_case(&c, &mut ctx),
+                    });
+                    let msg = match res { Ok(Ok(())) => continue, Ok(Err(m)) => m, Err(p) => format!("harness panic {}", p.site()) };
+                    let sig: String = msg.chars().filter(|ch| !ch.is_ascii_digit()).take(90).collect();
+                    let sig = format!("{} | {}", c.fe.lang, sig.split('|').next().unwrap_or(""));
+                    let mut g = groups.lock().unwrap();
+                    let e = g.entry(sig).or_insert((0, c.clone(), msg.clone()));
+                    e.0 += 1;
+                    if c.text.len() < e.1.text.len() { e.1 = c.clone(); e.2 = msg; }
+                }
+            }).unwrap();
+        }
+    });
+    for (sig, (count, case, msg)) in groups.into_inner().unwrap() {
+        println!("== {count}x {sig}\n   {}\n   {} {:?}", crate::core::truncate(&msg, 300), case.fe.label(), crate::core::truncate(&case.text, 200));
+    }
+    0
+}
+
+pub fn worker_main(args: &[String]) -> i32 {
+    if args.len() >= 3 && args[0] == "survey" {
+        return survey(&args[1], args[2].parse().unwrap_or(1000), args.get(3).and_then(|s| s.parse().ok()).unwrap_or(0));
+    }
     2
 }
